@@ -108,6 +108,14 @@ def gen_plan(prop, base_seed, i, tier):
     if prop == "C18" and rng.random() < 0.15:
         plan["source"] = "cli"
         plan["sim"].pop("faults", None)
+    if prop == "C18" and rng.random() < 0.3:
+        # malformed rows are passed through unsolved; the counts must still describe the run
+        from .c05 import POISON
+
+        for _ in range(rng.randint(1, 2)):
+            kind = rng.choice(["unparsable", "no_sep", "reagent_style", "two_sep", "empty_string"])
+            pos = rng.randint(1 if plan["source"] == "cli" else 0, len(plan["rows"]))
+            plan["rows"].insert(pos, rng.choice(POISON[kind]))
     return plan
 
 
@@ -162,8 +170,9 @@ def execute(plan):
             nb += 1 if oracles.balanced(inp) else 0
         interesting = 0 < nb < len(rows_in)
     elif prop == "C18":
-        if all(valid):
-            vs += oracles.check_c18(rows, res["stats"], len(rows_in))
+        processed = [oracles.pipeline_accepts(r) for r in rows_in]
+        if all(v or not p for v, p in zip(valid, processed)):  # no radical-placeholder inputs
+            vs += oracles.check_c18(rows, res["stats"], len(rows_in), processed)
             interesting = len({(r["solved"], r["solved_by"]) for r in rows}) >= 2
     out["violations"] = vs
     if interesting:
